@@ -1,6 +1,6 @@
 //! Shared by replay_builder / record_builder (C02): abstract items as used by
 //! spec/MsgBuilder.tla, a uniform driver over the real
-//! `MessageBuilder<{Vec, BytesMut, Array<512>, StreamTarget<Vec>}>` inside
+//! `MessageBuilder<{Vec, BytesMut, Array<512>, StreamTarget<Vec>, StreamTarget<Array<36>>}>` inside
 //! `{-, StaticCompressor, TreeCompressor, HashCompressor}`, an independent
 //! reader of produced octets (the guided reader of MsgBuilderWire.tla), and
 //! the re-parse with the library's own `Message`.
@@ -446,6 +446,18 @@ impl Tgt for StreamTarget<Vec<u8>> {
         Some(self.as_stream_slice())
     }
 }
+/// a stream target over a fixed array: 34 octets of message
+impl Tgt for StreamTarget<Array<36>> {
+    fn fresh() -> Self {
+        match StreamTarget::new(Array::new()) {
+            Ok(t) => t,
+            Err(_) => panic!("no room for the length prefix"),
+        }
+    }
+    fn stream_slice(&self) -> Option<&[u8]> {
+        Some(self.as_stream_slice())
+    }
+}
 impl<T: Tgt> Tgt for StaticCompressor<T> {
     fn fresh() -> Self {
         StaticCompressor::new(T::fresh())
@@ -690,6 +702,7 @@ pub fn make(comp: &str, tgt: &str) -> Box<dyn Drive> {
         "bytes" => with_comp!(BytesMut),
         "array" => with_comp!(Array<512>),
         "stream" => with_comp!(StreamTarget<Vec<u8>>),
+        "sarray" => with_comp!(StreamTarget<Array<36>>),
         _ => with_comp!(Vec<u8>),
     }
 }
@@ -698,6 +711,7 @@ pub fn cap_of(tgt: &str) -> usize {
     match tgt {
         "array" => 512,
         "stream" => 65535,
+        "sarray" => 34,
         _ => 1_000_000_000,
     }
 }
